@@ -426,87 +426,115 @@ Section TreeQuery.
   Definition eval (cm : list (nat * nat) * list (nat * nat)) : list nat :=
     flat_map (scan_slice T fc) (fst cm) ++ flat_map (scan_slice T fm) (snd cm).
 
-  Lemma loop_node : forall h l j rest cov may fuel m,
-    h + l = td -> j < 2 ^ l -> 2 ^ (S h) - 1 + m <= fuel ->
-    exists cov' may' fuel',
-      m <= fuel' /\
-      ranges_loop T fuel q (node l j :: rest) cov may =
-      ranges_loop T fuel' q rest (cov ++ cov') (may ++ may') /\
-      Permutation (eval (cov', may')) (filter (fun k => target (sb k)) (range_keys h j)).
+  (* processing the node on top of the stack = processing its whole subtree:
+     it appends [cov'], [may'] (which do not depend on the fuel) and consumes at
+     most 2^(h+1) - 1 iterations *)
+  Lemma loop_node : forall h l j, h + l = td -> j < 2 ^ l ->
+    exists cov' may',
+      Permutation (eval (cov', may')) (filter (fun k => target (sb k)) (range_keys h j)) /\
+      forall rest cov may fuel m, 2 ^ (S h) - 1 + m <= fuel ->
+        exists fuel', m <= fuel' /\
+          ranges_loop T fuel q (node l j :: rest) cov may =
+          ranges_loop T fuel' q rest (cov ++ cov') (may ++ may').
   Proof.
-    induction h as [|h IH]; intros l j rest cov may fuel m Hhl Hj Hfuel.
+    induction h as [|h IH]; intros l j Hhl Hj.
     - (* a leaf *)
-      destruct fuel as [|f]; [simpl in Hfuel; lia|].
-      rewrite ranges_loop_step, qdim, (node_box 0 l j Hhl Hj).
-      destruct (node_outside d q (page_box d (map sb (range_keys 0 j)))) eqn:Hout.
-      + exists [], [], f. rewrite !app_nil_r. split; [simpl in Hfuel; lia|]. split; [reflexivity|].
-        unfold eval. cbn [fst snd flat_map app]. rewrite filter_false; [constructor|].
-        apply (H_outside (range_keys 0 j)); [apply range_keys_In|exact Hout].
-      + destruct (node_inside d q (page_box d (map sb (range_keys 0 j)))) eqn:Hins.
-        * exists [(start_index T (node l j), stop_index T (node l j))], [], f.
-          rewrite app_nil_r. split; [simpl in Hfuel; lia|]. split; [reflexivity|].
-          unfold eval. cbn [fst snd flat_map app]. rewrite !app_nil_r.
-          rewrite (start_index_node 0 l j Hhl Hj), (stop_index_node 0 l j Hhl Hj).
+      destruct (node_outside d q (page_box d (map sb (range_keys 0 j)))) eqn:Hout;
+        [|destruct (node_inside d q (page_box d (map sb (range_keys 0 j)))) eqn:Hins].
+      + exists [], []. split.
+        * unfold eval. cbn [fst snd flat_map app]. rewrite filter_false; [constructor|].
+          apply (H_outside (range_keys 0 j)); [apply range_keys_In|exact Hout].
+        * intros rest cov may fuel m Hfuel. destruct fuel as [|f]; [simpl in Hfuel; lia|].
+          exists f. split; [simpl in Hfuel; lia|].
+          rewrite ranges_loop_step, qdim, (node_box 0 l j Hhl Hj), Hout. now rewrite !app_nil_r.
+      + exists [(lo 0 j, hi 0 j)], []. split.
+        * unfold eval. cbn [fst snd flat_map app]. rewrite !app_nil_r.
           rewrite scan_slice_filter. fold (range_keys 0 j).
           rewrite (filter_ext_in' _ (fun k => fc (sb k)) (fun k => target (sb k))); [apply Permutation_refl|].
           apply (H_inside (range_keys 0 j)); [apply range_keys_In|exact Hins].
-        * rewrite (start_index_node 0 l j Hhl Hj), (stop_index_node 0 l j Hhl Hj), HT_ps.
-          unfold lo, hi. simpl (2 ^ 0).
-          destruct (Nat.leb_spec ((j + 1) * 1 * ps - j * 1 * ps) ps) as [_|Hbad]; [|nia].
-          exists [], [(j * 1 * ps, (j + 1) * 1 * ps)], f.
-          rewrite app_nil_r. split; [simpl in Hfuel; lia|]. split; [reflexivity|].
-          unfold eval. cbn [fst snd flat_map app]. rewrite !app_nil_r.
-          rewrite scan_slice_filter.
-          change (slice (j * 1 * ps) ((j + 1) * 1 * ps) keys) with (range_keys 0 j).
+        * intros rest cov may fuel m Hfuel. destruct fuel as [|f]; [simpl in Hfuel; lia|].
+          exists f. split; [simpl in Hfuel; lia|].
+          rewrite ranges_loop_step, qdim, (node_box 0 l j Hhl Hj), Hout, Hins.
+          rewrite (start_index_node 0 l j Hhl Hj), (stop_index_node 0 l j Hhl Hj).
+          now rewrite app_nil_r.
+      + exists [], [(lo 0 j, hi 0 j)]. split.
+        * unfold eval. cbn [fst snd flat_map app]. rewrite !app_nil_r.
+          rewrite scan_slice_filter. fold (range_keys 0 j).
           rewrite (filter_ext_in' _ (fun k => fm (sb k)) (fun k => target (sb k))); [apply Permutation_refl|].
           intros k Hk. apply H_scan. eapply range_keys_In; eassumption.
+        * intros rest cov may fuel m Hfuel. destruct fuel as [|f]; [simpl in Hfuel; lia|].
+          exists f. split; [simpl in Hfuel; lia|].
+          rewrite ranges_loop_step, qdim, (node_box 0 l j Hhl Hj), Hout, Hins.
+          rewrite (start_index_node 0 l j Hhl Hj), (stop_index_node 0 l j Hhl Hj), HT_ps.
+          unfold lo, hi. simpl (2 ^ 0).
+          destruct (Nat.leb_spec ((j + 1) * 1 * ps - j * 1 * ps) ps) as [_|Hbad]; [|nia].
+          now rewrite app_nil_r.
     - (* an internal node *)
       assert (Hsz : 2 ^ (S (S h)) = 2 * 2 ^ (S h)) by apply pow2_S.
       pose proof (pow2_pos (S h)) as Hp.
-      destruct fuel as [|f]; [lia|].
-      rewrite ranges_loop_step, qdim, (node_box (S h) l j Hhl Hj).
-      destruct (node_outside d q (page_box d (map sb (range_keys (S h) j)))) eqn:Hout.
-      + exists [], [], f. rewrite !app_nil_r. split; [lia|]. split; [reflexivity|].
-        unfold eval. cbn [fst snd flat_map app]. rewrite filter_false; [constructor|].
-        apply (H_outside (range_keys (S h) j)); [apply range_keys_In|exact Hout].
-      + destruct (node_inside d q (page_box d (map sb (range_keys (S h) j)))) eqn:Hins.
-        * exists [(start_index T (node l j), stop_index T (node l j))], [], f.
-          rewrite app_nil_r. split; [lia|]. split; [reflexivity|].
-          unfold eval. cbn [fst snd flat_map app]. rewrite !app_nil_r.
-          rewrite (start_index_node (S h) l j Hhl Hj), (stop_index_node (S h) l j Hhl Hj).
+      destruct (node_outside d q (page_box d (map sb (range_keys (S h) j)))) eqn:Hout;
+        [|destruct (node_inside d q (page_box d (map sb (range_keys (S h) j)))) eqn:Hins].
+      + exists [], []. split.
+        * unfold eval. cbn [fst snd flat_map app]. rewrite filter_false; [constructor|].
+          apply (H_outside (range_keys (S h) j)); [apply range_keys_In|exact Hout].
+        * intros rest cov may fuel m Hfuel. destruct fuel as [|f]; [lia|].
+          exists f. split; [lia|].
+          rewrite ranges_loop_step, qdim, (node_box (S h) l j Hhl Hj), Hout. now rewrite !app_nil_r.
+      + exists [(lo (S h) j, hi (S h) j)], []. split.
+        * unfold eval. cbn [fst snd flat_map app]. rewrite !app_nil_r.
           rewrite scan_slice_filter. fold (range_keys (S h) j).
           rewrite (filter_ext_in' _ (fun k => fc (sb k)) (fun k => target (sb k))); [apply Permutation_refl|].
           apply (H_inside (range_keys (S h) j)); [apply range_keys_In|exact Hins].
-        * rewrite (start_index_node (S h) l j Hhl Hj), (stop_index_node (S h) l j Hhl Hj), HT_ps.
-          unfold lo, hi. rewrite (pow2_S h). pose proof (pow2_pos h) as Hp'.
-          destruct (Nat.leb_spec ((j + 1) * (2 * 2 ^ h) * ps - j * (2 * 2 ^ h) * ps) ps) as [Hbad|_]; [nia|].
-          rewrite left_child_node, right_child_node.
-          assert (Hj2 : 2 * j < 2 ^ S l) by (rewrite pow2_S; lia).
-          assert (Hj3 : 2 * j + 1 < 2 ^ S l) by (rewrite pow2_S; lia).
-          destruct (IH (S l) (2 * j) (node (S l) (2 * j + 1) :: rest) cov may f
-                       (2 ^ (S h) - 1 + m) ltac:(lia) Hj2 ltac:(lia))
-            as (c1 & m1 & f1 & Hf1 & E1 & P1).
-          destruct (IH (S l) (2 * j + 1) rest (cov ++ c1) (may ++ m1) f1 m ltac:(lia) Hj3 Hf1)
-            as (c2 & m2 & f2 & Hf2 & E2 & P2).
-          exists (c1 ++ c2), (m1 ++ m2), f2. split; [exact Hf2|]. split.
-          { rewrite E1, E2. now rewrite !app_assoc. }
-          rewrite range_keys_split, filter_app.
+        * intros rest cov may fuel m Hfuel. destruct fuel as [|f]; [lia|].
+          exists f. split; [lia|].
+          rewrite ranges_loop_step, qdim, (node_box (S h) l j Hhl Hj), Hout, Hins.
+          rewrite (start_index_node (S h) l j Hhl Hj), (stop_index_node (S h) l j Hhl Hj).
+          now rewrite app_nil_r.
+      + assert (Hj2 : 2 * j < 2 ^ S l) by (rewrite pow2_S; lia).
+        assert (Hj3 : 2 * j + 1 < 2 ^ S l) by (rewrite pow2_S; lia).
+        destruct (IH (S l) (2 * j) ltac:(lia) Hj2) as (c1 & m1 & P1 & L1).
+        destruct (IH (S l) (2 * j + 1) ltac:(lia) Hj3) as (c2 & m2 & P2 & L2).
+        exists (c1 ++ c2), (m1 ++ m2). split.
+        * rewrite range_keys_split, filter_app.
           unfold eval in *. cbn [fst snd] in *. rewrite !flat_map_app'.
           eapply Permutation_trans; [apply perm_interleave|].
           now apply Permutation_app.
+        * intros rest cov may fuel m Hfuel. destruct fuel as [|f]; [lia|].
+          rewrite ranges_loop_step, qdim, (node_box (S h) l j Hhl Hj), Hout, Hins.
+          rewrite (start_index_node (S h) l j Hhl Hj), (stop_index_node (S h) l j Hhl Hj), HT_ps.
+          unfold lo, hi. rewrite (pow2_S h). pose proof (pow2_pos h) as Hp'.
+          destruct (Nat.leb_spec ((j + 1) * (2 * 2 ^ h) * ps - j * (2 * 2 ^ h) * ps) ps) as [Hbad|_]; [nia|].
+          rewrite left_child_node, right_child_node.
+          destruct (L1 (node (S l) (2 * j + 1) :: rest) cov may f (2 ^ (S h) - 1 + m) ltac:(lia))
+            as (f1 & Hf1 & E1).
+          destruct (L2 rest (cov ++ c1) (may ++ m1) f1 m Hf1) as (f2 & Hf2 & E2).
+          exists f2. split; [exact Hf2|]. rewrite E1, E2. now rewrite !app_assoc.
   Qed.
 
   Lemma ranges_loop_nil : forall fuel cov may, ranges_loop T fuel q [] cov may = (cov, may).
   Proof. intros [|f] cov may; reflexivity. Qed.
 
-  (* the worklist visits each node at most once: [tree_len + 1] iterations suffice,
-     and what it returns selects exactly the [target] rows *)
+  (* the worklist visits each node at most once: [tree_len] iterations suffice (any larger
+     fuel gives the same ranges), and what it returns selects exactly the [target] rows *)
+  Lemma ranges_loop_fuel : forall fuel, tree_len T <= fuel ->
+    ranges_loop T fuel q [0] [] [] = maybe_intersects_ranges T q.
+  Proof.
+    intros fuel Hfuel. unfold maybe_intersects_ranges.
+    destruct (loop_node td 0 0 ltac:(lia) ltac:(simpl; lia)) as (c & m & _ & L).
+    change 0 with (node 0 0) at 2 4.
+    assert (Hsz : 2 ^ S td - 1 + 0 <= tree_len T)
+      by (rewrite tree_len_eq; unfold tlen; rewrite pow2_S; lia).
+    destruct (L [] [] [] fuel 0 ltac:(lia)) as (f1 & _ & E1).
+    destruct (L [] [] [] (S (tree_len T)) 0 ltac:(lia)) as (f2 & _ & E2).
+    now rewrite E1, E2, !ranges_loop_nil.
+  Qed.
+
   Lemma ranges_correct :
     Permutation (eval (maybe_intersects_ranges T q)) (filter (fun k => target (sb k)) keys).
   Proof.
     unfold maybe_intersects_ranges.
-    destruct (loop_node td 0 0 [] [] [] (S (tree_len T)) 0 ltac:(lia) ltac:(simpl; lia))
-      as (c & m & f & _ & E & P).
+    destruct (loop_node td 0 0 ltac:(lia) ltac:(simpl; lia)) as (c & m & P & L).
+    destruct (L [] [] [] (S (tree_len T)) 0) as (f & _ & E).
     { rewrite tree_len_eq. unfold tlen. rewrite pow2_S. lia. }
     change (node 0 0) with 0 in E. rewrite E, ranges_loop_nil. simpl app.
     now rewrite range_keys_root in P.
